@@ -130,8 +130,22 @@ def run(ctx):
             # R09.6 exactly 33 bytes
             ok6 = False
             for v, guards in foks:
+                def static_len(t):
+                    """len of a buffer whose size is fixed by construction: [0u8; N], possibly mutated in place."""
+                    while isinstance(t, tuple) and t and t[0] == "mut":
+                        t = t[1]
+                    return t[1] if (isinstance(t, tuple) and len(t) == 2 and t[0] == "zeros" and isinstance(t[1], int)) else None
+                def fold_len(c):
+                    # `decoded.len() == id.len()` with id: [u8; 33] is `decoded.len() == 33`
+                    if isinstance(c, tuple) and len(c) == 4 and c[0] == "binop" and c[1] in ("Eq", "Ne"):
+                        sides = []
+                        for x in (c[2], c[3]):
+                            n_ = static_len(x[1]) if (isinstance(x, tuple) and len(x) == 2 and x[0] == "len") else None
+                            sides.append(("int", n_) if n_ is not None else x)
+                        return ("binop", c[1], sides[0], sides[1])
+                    return c
                 for c, val in guards:
-                    pin = pin_of(c, val)
+                    pin = pin_of(fold_len(c), val)
                     if pin and pin[1] == 33 and pin[2] and isinstance(pin[0], tuple) and pin[0][0] == "len" and "base64::decode" in repr(pin[0]):
                         ok6 = True          # `len == 33` on its equal edge, in any spelling
                 if v in exact33:
